@@ -56,6 +56,9 @@ func init() {
 type fhGlob struct {
 	Glob string `json:"glob"`
 	Neg  bool   `json:"neg,omitempty"`
+	// Tmpl: the entry is written as a template over a task variable holding the pattern
+	// (`'{{.GVk}}'`): what counts is the compiled pattern, so the model is the same
+	Tmpl bool `json:"tmpl,omitempty"`
 }
 
 func fingerWork() string {
@@ -423,6 +426,20 @@ func (r *fhRun) writeTaskfiles() {
 		if t.Prompt {
 			b.WriteString("    prompt: 'continue?'\n")
 		}
+		// patterns given through task variables
+		nv := 0
+		for _, gs := range [][]fhGlob{t.Sources, t.Generates} {
+			for _, g := range gs {
+				if g.Tmpl {
+					if nv == 0 {
+						b.WriteString("    vars:\n")
+					}
+					fmt.Fprintf(b, "      GV%d: %s\n", nv, yamlQ(g.Glob))
+					nv++
+				}
+			}
+		}
+		nv = 0
 		for _, kv := range []struct {
 			k  string
 			gs []fhGlob
@@ -432,10 +449,15 @@ func (r *fhRun) writeTaskfiles() {
 			}
 			fmt.Fprintf(b, "    %s:\n", kv.k)
 			for _, g := range kv.gs {
+				txt := yamlQ(g.Glob)
+				if g.Tmpl {
+					txt = fmt.Sprintf("'{{.GV%d}}'", nv)
+					nv++
+				}
 				if g.Neg {
-					fmt.Fprintf(b, "      - exclude: %s\n", yamlQ(g.Glob))
+					fmt.Fprintf(b, "      - exclude: %s\n", txt)
 				} else {
-					fmt.Fprintf(b, "      - %s\n", yamlQ(g.Glob))
+					fmt.Fprintf(b, "      - %s\n", txt)
 				}
 			}
 		}
@@ -1340,7 +1362,7 @@ func (g *fhGen) gen(maxLen int) fhCase {
 				if g.chance(30) {
 					p = g.pick(fhSrcPool)
 				}
-				t.Sources = append(t.Sources, fhGlob{Glob: p, Neg: len(t.Sources) > 0 && g.chance(35)})
+				t.Sources = append(t.Sources, fhGlob{Glob: p, Neg: len(t.Sources) > 0 && g.chance(35), Tmpl: g.chance(20)})
 			}
 		}
 		for _, p := range fhSrcPool {
